@@ -25,7 +25,7 @@ def builds_needed(tier):
 
 # Own corpus re-run on other builds of the crate (mc/core.py: extra builds). Every observation is compared with the same model.
 def extra_builds(tier):
-    return [("relchk", None), ("native", None)]
+    return [("relchk", None), ("native", None), ("fe32", None)]
 
 
 
